@@ -61,7 +61,7 @@ def replay(ctx, path, cmd="auth-replay", sig_prefix="replay:auth", describe=None
         case = cases[r["idx"]]
         kind = classify(r["problems"][0])
         extra = describe(case, r) if describe else ""
-        if extra.startswith(":") and (sig_prefix.endswith("snap") or sig_prefix.endswith("ver")):
+        if extra.startswith(":") and sig_prefix.split(":")[-1] in ("snap", "ver", "params", "syntax", "macro", "ingest", "keys", "capi"):
             kind = ""
             extra = extra[1:]
         if kind == "other":
